@@ -194,14 +194,20 @@ def twin_c13_edge(k):
     group; a single 1A group — followed by clear and by the same groups again"""
     pis = [0x00FF, 0x54FF, 0xFFFF, 0xFF00, 0x0000, 0x8000, 0x7FFF, 0x0100]
     pi = pis[k % len(pis)]
-    var = (k // len(pis)) % 6
+    var = (k // len(pis)) % 8
     pre = ["new"] + ALL_CBS + ["c 1 0 1", "c 0 0 1"]
     if var in (1, 3, 5): pre.append("x 1")
     only_a = P(pi, 0x0408, 0xE0E0, 0x4142, 0, 2, 3, 3)                 # nothing but block A usable
     body = {0: [only_a], 1: [only_a], 2: [only_a, only_a], 3: [only_a, only_a],
             4: [P(pi, 0x0000, 0x0A14, 0x4142, 0, 0, 0, 3)],            # PI + one AF pair, PS data rejected
-            5: [P(pi, 0x1000, 0x00E2, 0, 0, 0, 0, 0)]}[var]             # PI + ECC once under the extended check
+            5: [P(pi, 0x1000, 0x00E2, 0, 0, 0, 0, 0)],                 # PI + ECC once under the extended check
+            6: [], 7: []}[var]
+    if var in (6, 7):
+        # only block B usable, the same values twice with the check off; the check is switched on AFTER the reset
+        only_b = P(pi, 0x0000 | (9 << 5) | 0x0400 | 0x10, 0xE0E0, 0x4142, 2, 0, 3, 3)
+        body = [only_b, only_b] if var == 6 else [only_b, P(pi, 0x1000, 0x00E2, 0, 2, 0, 0, 0), only_b, P(pi, 0x1000, 0x00E2, 0, 2, 0, 0, 0)]
     pre += body
+    if var in (6, 7): body = ["x 1"] + body[:1] + body
     post = body + [P(pi, 0x0408, 0xE0E0, 0x4142), P(pi ^ 0x0100, 0x0408, 0xE0E0, 0x4142), P(pi, 0x2011, 0x4B52, 0x4450, 0, 1, 0, 0)]
     tr = Tracker()
     for line in pre: tr.feed(line)
@@ -272,12 +278,28 @@ def twin_c15(seed, n):
         return "q"
     for i in slots:
         a[i] = obs(ra); b[i] = obs(rb)
+    # every ordered pair (j, k) of callbacks: run B lets callback j remove callback k (and change the user data) from inside the
+    # call, on a fresh parser whose first groups make every callback fire — within one parse call where the library allows it
+    stim = [P(0x3ABC, 0x0000 | (5 << 5) | (1 << 10) | (1 << 4) | (1 << 3), 0x1A2B, 0x4142),      # PI PTY TP TA MS AF PS
+            P(0x3ABC, 0x0000 | (5 << 5) | (1 << 10) | (1 << 4) | (1 << 3) | 1, 0x3C4D, 0x4344),
+            P(0x3ABC, 0x1000 | (5 << 5) | (1 << 10), 0x00E0, 0x0000),                               # ECC, country
+            P(0x3ABC, 0x2000 | (5 << 5) | (1 << 10), 0x4142, 0x430D),                               # RT
+            P(0x3ABC, 0xA000 | (5 << 5) | (1 << 10), 0x4142, 0x4344),                               # PTYN
+            P(0x3ABC, 0x4000 | (5 << 5) | (1 << 10) | 1, 0xD0C8, 0x1000 | (30 << 6)),               # CT
+            P(0x4DEF, 0x0000 | (9 << 5) | 2, 0x5E6F, 0x4546)]                                       # all of group 0 again, changed
+    pairs12 = [(j, k) for j in range(12) for k in range(12) if j != k]
+    for (j, k) in pairs12:
+        blk = ["new"] + ["r %d 1" % i for i in range(12)] + ["u 77"]
+        a += blk; b += blk
+        a.append("q"); b.append("ri %d" % (1000 + 100 * j + 4 * k + 1 + 2 * ((j + k) % 2)))
+        a += stim; b += stim
+        a.append("q"); b.append("ri 0")
     if seed % 2 == 1:
         # odd seeds: in run B the callbacks themselves register/unregister other callbacks and change the user data
         # while the library is in the middle of a parse call ("inside or outside callbacks")
         for i in slots[::3]:
             b[i] = "ri %d" % rb.randrange(1, 4)
-    return {"a": a, "b": b, "pairs": [(i, i) for i in range(len(a)) if base[i] is not None], "keys": None,
+    return {"a": a, "b": b, "pairs": [(i, i) for i in range(len(a)) if i >= len(base) or base[i] is not None], "keys": None,
             "events": False, "ret": True, "nontrivial": len(slots)}
 
 # ---- C09: texts and clock time are independent of the extended check -----------------------
